@@ -1,6 +1,7 @@
 (* C04 model runner.  rows are '|'-separated hex strings.
    write <gfx> <map> <gff> <music> <sfx> <code> <version> <planes> <rows>   -> OK <rows> | ERR <name>
    read <width> <height> <planes> <rows>   -> OK <gfx> <map> <gff> <music> <sfx> <code> <version> | ERR <name>
+   stego <picodata> <planes> <rows> -> OK <rows> | ERR ..     unstego <w> <h> <planes> <rows> -> OK <picodata> | ERR ..
    gbc <text>  /  gcb <codedata> <version>  as in the C05 runner *)
 let rows_of_str s = if s = "-" then [] else List.map bytes_of_hex (String.split_on_char '|' s)
 let str_of_rows rows = match rows with [] -> "-" | _ -> String.concat "|" (List.map hex_of_bytes rows)
@@ -18,6 +19,14 @@ let handle fields =
      | Ok c -> "OK " ^ String.concat " " [hex_of_bytes c.c_gfx; hex_of_bytes c.c_map; hex_of_bytes c.c_gff;
                                            hex_of_bytes c.c_music; hex_of_bytes c.c_sfx; hex_of_bytes c.c_code;
                                            str_of_z c.c_version]
+     | Err e -> "ERR " ^ err_name e)
+  | ["stego"; pd; planes; rows] ->
+    (match rows_of_picodata_fast (bytes_of_hex pd) (z_of_str planes) (rows_of_str rows) with
+     | Ok r -> "OK " ^ str_of_rows r
+     | Err e -> "ERR " ^ err_name e)
+  | ["unstego"; w; h; planes; rows] ->
+    (match picodata_of_rows_fast (z_of_str w) (z_of_str h) (z_of_str planes) (rows_of_str rows) with
+     | Ok r -> "OK " ^ hex_of_bytes r
      | Err e -> "ERR " ^ err_name e)
   | ["gbc"; t] ->
     (match get_bytes_from_code (bytes_of_hex t) with
